@@ -27,13 +27,17 @@ Theorem generated_decisions :
    (forall k p, forest_cfg k p = mkCfg k false false p)) /\
   (* a starting element outside 0..n-1 is refused by the three constructors; compute() starts from empty tables *)
   ((forall k r n, root_ok k r n = (Z.leb 0 r && Z.ltb r n)) /\
-   (forall k, tree_resets k = true) /\ kr_resets = true /\ (forall k, forest_resets k = true)).
+   (forall k, tree_resets k = true) /\ kr_resets = true /\ (forall k, forest_resets k = true)) /\
+  (* omitted optional arguments: defaults are None / False, none is a mutable object shared between calls *)
+  (ctor_defaults_immutable = true /\ exclusion_defaults_are_none = true /\
+   forall k p, default_cfg k p = Some (mkCfg k false false p)).
 Proof.
-  split; [exact ops_spec|]. split; [split; reflexivity|]. split; [|split].
+  split; [exact ops_spec|]. split; [split; reflexivity|]. split; [|split; [|split]].
   - split; [reflexivity|]. split; [exact kr_take_spec|]. split; [exact kr_weight_spec|].
     split; [exact kr_all_edges_spec|]. split; [exact kr_keep_spec|exact kr_child_keep_spec].
   - split; [intros []; reflexivity|]. split; [reflexivity|]. intros [] p; reflexivity.
   - split; [intros [] r n; reflexivity|]. split; [intros []; reflexivity|]. split; [reflexivity|intros []; reflexivity].
+  - split; [reflexivity|]. split; [reflexivity|]. intros k p; reflexivity.
 Qed.
 
 (* ------------------------------------------------------------ acyclicity of the parent table, explicitly *)
